@@ -246,8 +246,12 @@ def run_impl(case, deep=None):
     if case.get('exc') is not None:
         exc = CustomExc
     fn = e.authorize if case.get('authorize') else e.enforce
+    if case.get('debug'):
+        _debug_logging(True)
     import copy
     target = copy.deepcopy(case['target']) if deep is None else deep
+    if isinstance(creds, dict):
+        creds = copy.deepcopy(creds)
     try:
         r = fn(rule, target, creds, bool(case.get('do_raise')), exc, *args, **kwargs)
         res = ('ret', bool(r))
@@ -257,7 +261,31 @@ def run_impl(case, deep=None):
         res = ('exc', 'OutOfFuel')
     except Exception as ex:   # noqa
         res = ('exc', type(ex).__name__, str(ex)[:200])
+    finally:
+        if case.get('debug'):
+            _debug_logging(False)
+    if case.get('snapshot'):
+        same_creds = True
+        if isinstance(creds, dict) and isinstance(case['creds'], dict):
+            same_creds = ({k: v for k, v in creds.items() if k != 'system'} ==
+                          {k: v for k, v in case['creds'].items() if k != 'system'})
+        res = res + (('unchanged', target == case['target'] and same_creds),)
     return res, list(_trace)
+
+
+def _debug_logging(on):
+    import logging
+    from oslo_policy import policy
+    lg = policy.LOG
+    if on:
+        logging.disable(logging.NOTSET)
+        if not lg.handlers:
+            lg.addHandler(logging.NullHandler())
+        lg.propagate = False
+        lg.setLevel(logging.DEBUG)
+    else:
+        lg.setLevel(logging.NOTSET)
+        logging.disable(logging.CRITICAL)
 
 
 _conf = None
